@@ -179,7 +179,7 @@ func stepBoth(c *hx.Ctx, ln int, a, b *metax.Inst, ra, rb *hx.Rng, cmd metax.Cmd
 		c.Count("err:" + cmd.Kind)
 	}
 	if resA != resB {
-		c.Violation(ln, classify(cmd, resA, resB, nil, noSki), fmt.Sprintf("results differ: %s vs %s after %s", resA, resB, strings.Join(tail(*hist, 14), " | ")))
+		c.Violation(ln, classify(a, cmd, resA, resB, nil, noSki), fmt.Sprintf("results differ: %s vs %s after %s", resA, resB, strings.Join(tail(*hist, 14), " | ")))
 		return false
 	}
 	if resA.Panic {
@@ -189,7 +189,7 @@ func stepBoth(c *hx.Ctx, ln int, a, b *metax.Inst, ra, rb *hx.Rng, cmd metax.Cmd
 	da, db := a.DumpData(), b.DumpData()
 	if da.String() != db.String() {
 		d := metax.Diff(da, db, 4)
-		c.Violation(ln, classify(cmd, resA, resB, d, noSki), fmt.Sprintf("catalogues differ at %s after %s", strings.Join(d, "; "), strings.Join(tail(*hist, 14), " | ")))
+		c.Violation(ln, classify(a, cmd, resA, resB, d, noSki), fmt.Sprintf("catalogues differ at %s after %s", strings.Join(d, "; "), strings.Join(tail(*hist, 14), " | ")))
 		return false
 	}
 	return true
@@ -203,9 +203,12 @@ func tail(xs []string, n int) []string {
 }
 
 // classify maps a divergence to the finding class it belongs to ("" = none: a violation).
-func classify(cmd metax.Cmd, ra, rb metax.Result, diff []string, noSki bool) string {
+func classify(a *metax.Inst, cmd metax.Cmd, ra, rb metax.Result, diff []string, noSki bool) string {
 	all := strings.Join(diff, ";")
 	switch {
+	case a.StartBeforeInt64Range():
+		// the un-restored replica holds a group whose start cannot be written to a snapshot
+		return "group_start_before_int64_range"
 	case cmd.Kind == "UpdateNodeTmpIndex" && diff == nil:
 		return "node_tmp_index_not_in_snapshot"
 	case diff != nil && onlyPaths(diff, ".DataNodes[", ".SqlNodes[") && strings.Contains(all, "].Index:"):
@@ -214,8 +217,6 @@ func classify(cmd metax.Cmd, ra, rb metax.Result, diff []string, noSki bool) str
 		return "recover_metadata_on_fresh_store"
 	case noSki && diff == nil && (cmd.Kind == "CreateShardGroup" || cmd.Kind == "CreateMeasurement" || cmd.Kind == "AlterShardKey"):
 		return "maporder_measurement_without_shardkey"
-	case diff != nil && strings.Contains(all, ".StartTime:") && cmd.Kind == "CreateShardGroup" && strings.Contains(cmd.Text, " -922"):
-		return "group_start_before_int64_range"
 	}
 	return ""
 }
